@@ -10,12 +10,16 @@ import (
 	"fmt"
 	"math/rand"
 	"sort"
+	"sync/atomic"
 	"testing"
+	"time"
 
 	corev1 "k8s.io/api/core/v1"
 	"k8s.io/apimachinery/pkg/api/resource"
 	"sigs.k8s.io/controller-runtime/pkg/client"
 	"sigs.k8s.io/controller-runtime/pkg/client/fake"
+
+	"sigs.k8s.io/controller-runtime/pkg/client/interceptor"
 
 	"github.com/koordinator-sh/koordinator/apis/extension"
 	"github.com/koordinator-sh/koordinator/apis/thirdparty/scheduler-plugins/pkg/apis/scheduling/v1alpha1"
@@ -32,6 +36,8 @@ type c15Op struct {
 	Max      json.RawMessage `json:"max,omitempty"`
 	Ns       []string        `json:"ns,omitempty"`
 	Has      bool            `json:"has,omitempty"`
+	A        *c15Op          `json:"a,omitempty"` // race: the deletion
+	B        *c15Op          `json:"b,omitempty"` // race: the request that arrives while the deletion lists the pods
 }
 
 func c15RL(raw json.RawMessage) (corev1.ResourceList, map[string]int64) {
@@ -94,15 +100,99 @@ func c15Obs(qt *quotaTopology) vu.Ev {
 }
 
 func c15Run(rec *vu.Recorder, script []c15Op) {
+	var onList atomic.Value // func(): called from inside the webhook's pod List (schedule control for race ops)
 	cl := fake.NewClientBuilder().WithIndex(&corev1.Pod{}, "label.quotaName", func(object client.Object) []string {
 		return []string{object.(*corev1.Pod).Labels[extension.LabelQuotaName]}
+	}).WithInterceptorFuncs(interceptor.Funcs{
+		List: func(ctx context.Context, c client.WithWatch, list client.ObjectList, opts ...client.ListOption) error {
+			if f, _ := onList.Load().(func()); f != nil {
+				f()
+			}
+			return c.List(ctx, list, opts...)
+		},
 	}).Build()
 	v1alpha1.AddToScheme(cl.Scheme())
 	qt := NewQuotaTopology(cl)
 	store := map[string]*v1alpha1.ElasticQuota{} // the "API server": last admitted object per name
+	// one request through the webhook; returns the verdict and, if admitted, what to do to the store
+	request := func(o c15Op) (bool, func()) {
+		switch o.Op {
+		case "create":
+			q := c15Quota(o)
+			err := qt.ValidAddQuota(q)
+			return err == nil, func() { store[o.Name] = q }
+		case "update":
+			q := c15Quota(o)
+			old := store[o.Name]
+			if old == nil {
+				old = &v1alpha1.ElasticQuota{}
+				old.Name = o.Name
+			}
+			err := qt.ValidUpdateQuota(old.DeepCopy(), q)
+			return err == nil, func() { store[o.Name] = q }
+		case "delete":
+			q := store[o.Name]
+			if q == nil {
+				q = MakeQuota(o.Name).Obj()
+			}
+			err := qt.ValidDeleteQuota(q.DeepCopy())
+			return err == nil, func() { delete(store, o.Name) }
+		}
+		panic("not a request: " + o.Op)
+	}
+	echo := func(o c15Op, accepted bool) vu.Ev {
+		ns := o.Ns
+		if ns == nil {
+			ns = []string{}
+		}
+		ev := vu.Ev{"op": o.Op, "name": o.Name, "accepted": accepted}
+		if o.Op != "delete" {
+			_, mn := c15RL(o.Min)
+			_, mx := c15RL(o.Max)
+			ev["parent"], ev["isParent"], ev["tree"], ev["min"], ev["max"], ev["ns"] = o.Parent, o.IsParent, o.Tree, mn, mx, ns
+		}
+		return ev
+	}
 	rec.Reset(nil)
 	for _, o := range script {
 		if o.Op == "reset" {
+			continue
+		}
+		if o.Op == "race" {
+			// request B arrives while deletion A is listing the pods of its quota; on a webhook that holds its lock over
+			// the whole deletion B simply waits (the gate gives up after 40 ms and lets A go on)
+			var accB bool
+			var commitB func()
+			doneB := make(chan struct{})
+			fired := false
+			onList.Store(func() {
+				if fired {
+					return
+				}
+				fired = true
+				go func() {
+					accB, commitB = request(*o.B)
+					close(doneB)
+				}()
+				select {
+				case <-doneB:
+				case <-time.After(40 * time.Millisecond):
+				}
+			})
+			accA, commitA := request(*o.A)
+			onList.Store((func())(nil))
+			if !fired { // A was refused before it looked at the pods: B follows normally
+				accB, commitB = request(*o.B)
+			} else {
+				<-doneB
+			}
+			if accA {
+				commitA()
+			}
+			if accB {
+				commitB()
+			}
+			rec.Emit(vu.Ev{"op": "race", "a": echo(*o.A, accA), "b": echo(*o.B, accB), "obs": c15Obs(qt)})
 			continue
 		}
 		ns := o.Ns
@@ -198,6 +288,26 @@ func c15Random(rng *rand.Rand, n int) []c15Op {
 			}
 			if !hasKids && !hasPods[name] {
 				delete(live, name)
+			}
+		case isLive && k == 2 && live[name].isParent && rng.Intn(2) == 0:
+			// a child is created under (or a quota is moved under) `name` while the deletion of `name` lists its pods
+			var free []string
+			for _, n2 := range names {
+				if _, l := live[n2]; !l {
+					free = append(free, n2)
+				}
+			}
+			if len(free) == 0 {
+				continue
+			}
+			child := free[rng.Intn(len(free))]
+			b := c15Op{Op: "create", Name: child, Parent: name, IsParent: false, Min: rl(0, 0, true), Max: rl(4, 4, true)}
+			out = append(out, c15Op{Op: "race", A: &c15Op{Op: "delete", Name: name}, B: &b})
+			// shadow: one of them wins; the next requests find out
+			if rng.Intn(2) == 0 {
+				delete(live, name)
+			} else {
+				live[child] = st{parent: name}
 			}
 		case isLive && k == 1:
 			hasPods[name] = !hasPods[name]
